@@ -468,7 +468,8 @@ def fixed_classes(ctx, real):
             dated = Dated(i, datetime.date(2000 + rng.randint(0, 30), rng.randint(1, 12),
                                           rng.randint(1, 28)))
         v = Outer(Name(rng.choice(['n', 'é ü', 'q"uote', 'x y'])), items,
-                  pathlib.Path(rng.choice(['/tmp/x', 'rel/p', 'a b'])),
+                  pathlib.Path(rng.choice(['/tmp/x', 'rel/p', 'a b', 'run/../shared/data.csv', '/data/cur/../in.txt',
+                                           './x', 'a//b'])),
                   rng.choice([None, 's', 'true', 'ünï']), m, dated, extra)
         ctx.count('class_values')
         for indent in (None, rng.choice(range(0, 9))):
